@@ -167,6 +167,18 @@ func (c *Core) dispatching(bp BundleDescriptor) {
 		"bundle": bp.ID(),
 	}).Info("Dispatching bundle")
 
+	// The routing algorithms read, extend and write back a bundle's list of served peers. Two dispatchings of one
+	// bundle at the same time would both select the same peer. The bundle is kept, the other dispatching cares for it.
+	dispatchingKey := bp.Id.Scrub().String()
+	if _, busy := c.dispatchingBundles.LoadOrStore(dispatchingKey, struct{}{}); busy {
+		log.WithFields(log.Fields{
+			"bundle": bp.ID(),
+		}).Debug("Bundle is already being dispatched")
+
+		return
+	}
+	defer c.dispatchingBundles.Delete(dispatchingKey)
+
 	if !c.routing.DispatchingAllowed(bp) {
 		log.WithFields(log.Fields{
 			"bundle":  bp.ID(),
